@@ -251,6 +251,9 @@ fn run(args: &Args) {
             if out.starts_with("disconnected:") {
                 ok = out.split('(').next().unwrap_or("").to_string();
             }
+            if ok.len() > 24 {
+                ok = "<data>".to_string();
+            }
             *out_hist.entry(format!("{}>{}", k, ok)).or_insert(0) += 1;
         }
         if (p.nontrivial)(&r.trace) {
